@@ -159,6 +159,9 @@ let () =
   register "getb" (function [p; k] ->
       (match get_field !cur_be !cur_buf (the_msg ()) !cur_base (parse_path p) (nat_of_int (int_of_string k)) with
        | Some bs -> hex_of_bytes bs | None -> oob) | _ -> failwith "getb");
+  register "geta" (function [p; k] ->
+      (match get_field !cur_be !cur_buf (the_msg ()) !cur_base (parse_path p) (nat_of_int (int_of_string k)) with
+       | Some bs -> hex_of_bytes bs | None -> oob) | _ -> failwith "geta");
   register "setf" (function [p; k; pr; v] ->
       let pr = prim_of_string pr in
       let bs = enc !cur_be (prim_size pr) (to_raw pr (z_of_string v)) in
@@ -205,12 +208,16 @@ let size_of_stype t = match type_size t with Some z -> z | None -> failwith "typ
 
 let () =
   register "getcm" (function [p; k; j; pr] ->
+      (* the composite accessor only computes an address; the member accessor reads the member's bytes *)
       let (off, t) = member_of p (int_of_string k) (int_of_string j) in
-      (match get_field !cur_be !cur_buf (the_msg ()) !cur_base (parse_path p) (nat_of_int (int_of_string k)) with
-       | Some bs ->
-         let sub = slice bs off (size_of_stype t) in
-         if pr = "bytes" then hex_of_bytes sub
-         else string_of_z (interp (prim_of_string pr) (dec !cur_be sub))
+      (match msg_resolve !cur_be !cur_buf (the_msg ()) !cur_base (parse_path p) with
+       | Some ((pos, _), l) ->
+         let f = List.nth (level_fields l) (int_of_string k) in
+         (match rd_bytes !cur_buf (Z.add (Z.add pos f.f_off) off) (size_of_stype t) with
+          | Some sub ->
+            if pr = "bytes" then hex_of_bytes sub
+            else string_of_z (interp (prim_of_string pr) (dec !cur_be sub))
+          | None -> oob)
        | None -> oob) | _ -> failwith "getcm");
   register "setcm" (function [p; k; j; pr; v] ->
       let (off, t) = member_of p (int_of_string k) (int_of_string j) in
@@ -223,8 +230,8 @@ let () =
   register "dinfo" (function [p; k] ->
       (match locate_data !cur_be !cur_buf (the_msg ()) !cur_base (parse_path p) (nat_of_int (int_of_string k)) with
        | Some (pos, t) ->
-         (match get_data !cur_be !cur_buf (the_msg ()) !cur_base (parse_path p) (nat_of_int (int_of_string k)) with
-          | Some bs -> Printf.sprintf "pos=%s n=%d" (string_of_z (Z.sub pos !cur_base)) (List.length bs)
+         (match rd !cur_be !cur_buf pos t with
+          | Some n -> Printf.sprintf "pos=%s n=%s" (string_of_z (Z.sub pos !cur_base)) (string_of_z n)
           | None -> oob)
        | None -> oob) | _ -> failwith "dinfo");
   register "use" (fun _ -> "ok")
